@@ -221,6 +221,10 @@ func equalMarks(m1, m2 errorMark) bool {
 	if m1.msg != m2.msg {
 		return false
 	}
+	if len(m1.types) != len(m2.types) {
+		// A difference in chain length makes the marks different.
+		return false
+	}
 	for i, t := range m1.types {
 		if !t.Equals(m2.types[i]) {
 			return false
@@ -302,7 +306,8 @@ func encodeMark(_ context.Context, err error) (msg string, _ []string, payload p
 
 func decodeMark(_ context.Context, cause error, _ string, _ []string, payload proto.Message) error {
 	m, ok := payload.(*errorspb.MarkPayload)
-	if !ok {
+	if !ok || len(m.Types) == 0 {
+		// A mark always carries at least the type of its reference error.
 		// If this ever happens, this means some version of the library
 		// (presumably future) changed the payload type, and we're
 		// receiving this here. In this case, give up and let
